@@ -269,12 +269,20 @@ func (c *connRun) requestBytes(connect, reqClose bool) []byte {
 	return []byte(fmt.Sprintf("GET http://%s/%d/%d HTTP/1.1\r\nHost: %s\r\nAccept: */*\r\n%s\r\n", h, c.k, c.reqs, h, cl))
 }
 
+// autoConnect: nobody of the harness stands between the proxy and the target of this connection's CONNECT
+// (rig a dialling directly): "the target has it" is learnt from the 200 and the target answers by itself.
+// Everywhere else (rig b's dial wrapper, the upstream proxy, rig a's dial redirect for a "dial" connection)
+// dialArrived logs o and a.
+func (c *connRun) autoConnect() bool {
+	return c.cr.c.Kind == "a" && !c.cr.c.Upstream && c.sc.Phase != "dial"
+}
+
 // send writes a whole request (part 0), its first half (1, logged p) or the rest (2, logged s).
 func (c *connRun) send(connect, reqClose bool, part int, b []byte) {
 	half := len(b) / 2
 	switch part {
 	case 0:
-		c.cr.log.Add("s", c.k, connect, reqClose, connect && c.cr.c.Kind == "a")
+		c.cr.log.Add("s", c.k, connect, reqClose, connect && c.autoConnect())
 		c.reqs++
 	case 1:
 		c.cr.log.Add("p", c.k)
@@ -355,7 +363,7 @@ func (c *connRun) expectResponse(method string, slow bool, wantBody int) (string
 		return "cut", false
 	}
 	cl := hasClose(m)
-	if method == "CONNECT" && c.cr.c.Kind == "a" && m.Status == 200 {
+	if method == "CONNECT" && c.autoConnect() && m.Status == 200 {
 		c.cr.log.Add("o", c.k) // a 200 to CONNECT: the target accepted the connection some time ago
 	}
 	c.cr.log.Add("R", c.k, cl)
@@ -653,7 +661,8 @@ func (c *connRun) run() {
 		if got != "resp" {
 			return
 		}
-		if !c.ping() {
+		// a 200 announces a tunnel: what goes into it must come back, whenever the dial completed
+		if !c.ping(true) {
 			return
 		}
 		c.markReady()
@@ -667,19 +676,22 @@ func (c *connRun) run() {
 		}
 		// the tunnel keeps working while the proxy drains
 		for end := time.Now().Add(cr.patience()); !isClosed(cr.known) && !isClosed(cr.finished) && time.Now().Before(end); {
-			if !c.ping() {
+			if !c.ping(false) {
 				return
 			}
 			waitOr(cr.known, 15*time.Millisecond)
 		}
-		// ... and for HoldMs more (in-flight work that outlasts a short shutdown timeout)
+		// ... and for HoldMs more (in-flight work that outlasts a short shutdown timeout); the first round trip
+		// made after closing is known and the last one are entered into the history
+		first := true
 		for end := time.Now().Add(time.Duration(sc.HoldMs) * time.Millisecond); time.Now().Before(end) && !isClosed(cr.finished); {
-			if !c.ping() {
+			if !c.ping(first) {
 				return
 			}
+			first = false
 			waitOr(cr.finished, 15*time.Millisecond)
 		}
-		if !c.ping() {
+		if !c.ping(true) {
 			return
 		}
 		switch sc.After {
@@ -695,8 +707,9 @@ func (c *connRun) run() {
 	}
 }
 
-// ping sends a line through the tunnel and expects it back. A failure means the tunnel is closed.
-func (c *connRun) ping() bool {
+// ping sends a line through the tunnel and expects it back (client -> proxy -> target -> proxy -> client). A
+// failure means the tunnel is closed. With record the completed round trip is entered into the history (t).
+func (c *connRun) ping(record bool) bool {
 	msg := []byte(fmt.Sprintf("ping-%d\n", c.k))
 	c.cl.Conn.SetWriteDeadline(time.Now().Add(3 * time.Second))
 	_, werr := c.cl.Conn.Write(msg)
@@ -721,6 +734,9 @@ func (c *connRun) ping() bool {
 	if !bytes.Equal(buf, msg) {
 		c.cr.note("conn %d: tunnel echo differs", c.k)
 		return false
+	}
+	if record {
+		c.cr.log.Add("t", c.k)
 	}
 	return true
 }
